@@ -909,6 +909,45 @@ func (it *Interp) doCall(fr *frame, c ssa.CallInstruction, st *State, k cont) {
 				}
 			}
 			k(st, []*Term{s})
+		case "min", "max":
+			// two-operand integer form: a constant when both are, otherwise the path forks on the comparison
+			if len(args) != 2 {
+				st.Problems = append(st.Problems, "unmodelled builtin "+b.Name()+" with "+fmt.Sprint(len(args))+" operands at "+pos)
+				k(st, []*Term{Leaf("undef", b.Name())})
+				return
+			}
+			x, y := args[0], args[1]
+			if b.Name() == "min" {
+				x, y = y, x // min(a, b) = the smaller: 'x > y ? x : y' with the operands swapped below
+			}
+			// result is x if x > y (max) ... for min after the swap: result is y' = original a when b > a
+			gt := Mk("cmp", ">", x, y)
+			pick := func(v bool) *Term {
+				if b.Name() == "max" {
+					if v {
+						return x
+					}
+					return y
+				}
+				// min: operands were swapped (x = b, y = a): b > a -> a, else b
+				if v {
+					return y
+				}
+				return x
+			}
+			if v, ok := gt.BoolVal(); ok {
+				k(st, []*Term{pick(v)})
+				return
+			}
+			if v, ok := st.known(gt); ok {
+				k(st, []*Term{pick(v)})
+				return
+			}
+			for _, v := range []bool{true, false} {
+				st2 := st.clone()
+				st2.add(gt, v)
+				k(st2, []*Term{pick(v)})
+			}
 		case "close":
 			st.Events = append(st.Events, Event{Kind: "close", Args: args, Pos: pos})
 			k(st, nil)
@@ -965,6 +1004,11 @@ func (it *Interp) doCall(fr *frame, c ssa.CallInstruction, st *State, k cont) {
 	if ld, ok := cc.Value.(*ssa.UnOp); ok {
 		if g, isG := ld.X.(*ssa.Global); isG {
 			if fn := it.singleFuncOfGlobal(g); fn != nil {
+				if fn.Blocks == nil || fn.Pkg != it.P.Cache {
+					// 'var now = time.Now': a function of another package, by its contract
+					it.external(fn, args, st, pos, k)
+					return
+				}
 				it.call(fn, args, nil, st, fr.depth+1, k)
 				return
 			}
